@@ -1,0 +1,9 @@
+//go:build !verif
+
+package kv
+
+import "time"
+
+func verifPermuteRoots(_ Config, roots []string) []string { return roots }
+
+func verifWhen(_ Config, when time.Time) time.Time { return when }
